@@ -271,6 +271,9 @@ def run(ctx):
     rule_r5(facts, ctx)
     rule_r6(facts, ctx)
     c01.rule_r2(facts, ctx, rule_id="C18.R7")
+    from .. import controls
+    controls.expect(ctx, "C18.R1", rule_r1, "rogue_mapping", "mmap outside Map")
+    controls.expect(ctx, "C18.R6", rule_r6, "rogue_mapping", "MAP_PRIVATE mapping")
     ctx.floor("C18.R1", 3, "mmap in with_addr, munmap in with_addr and Drop")
     ctx.floor("C18.R2", 1, "mmap call")
     ctx.floor("C18.R3", 1, "Drop for Map")
